@@ -5,6 +5,7 @@ from ..bounded import approx_common as ac
 FEW_ITERS_KEY = 'fit-no-worse-than-uniform:few-iterations'
 EXACT_ITERS = 1000
 FACTORED_ITERS = 3000
+ESCALATED_ITERS = 6000
 
 
 def _interleave(*lists):
@@ -62,7 +63,7 @@ class C18(Prop):
                    'model.project(clique) is finite, nonnegative and sums to total (rtol 1e-6); L2 loss recomputed by the harness from those answers <= loss '
                    'of the uniform start (+1e-9 relative); with the convex oracle the mean L1 parent/child disagreement of model.marginals, recomputed with '
                    'numpy, is < 1.0 (the tolerance mirror_descent_auto enforces). Disjoint clique families: with iters=%d every oracle reaches the loss of '
-                   'FactoredInference(iters=%d) on the same measurements within 1e-3*(L_uniform - L_opt) + 1e-6. '
+                   'FactoredInference(iters=%d) on the same measurements (and of an independent projected-gradient solver of the separable problem, whichever is lower) within 1e-3*(L_uniform - L_opt) + 1e-6. '
                    'Known finding recorded by key %s: the last mirror-descent step is never checked, so with < 10 iterations the fit can be worse '
                    'than the uniform start.' % (EXACT_ITERS, FACTORED_ITERS, FEW_ITERS_KEY))
     rule = ('cases = (kind in {general, disjoint-exact}, clique list over <= 5 attributes of size 2..3, oracle, iters, total known/estimated, '
@@ -74,7 +75,10 @@ class C18(Prop):
     assumptions = ['bounded: <= 5 attributes of size <= 3, <= 6 measurements',
                    'marginal_oracle "pairwise-convex" (FactorGraph(convex=True)) is excluded: it needs cvxopt, which is not installed',
                    'LocalInference does not call fix_measurements: Q is always given explicitly and proj as a tuple in domain order',
-                   'iteration counts {1, 50, 300}; iters=300 only on structures with <= 6 regions (cost); disjoint-clique exactness with iters=%d' % EXACT_ITERS,
+                   'iteration counts {1, 50, 300}; iters=300 only on structures with <= 6 regions (cost); disjoint-clique exactness with iters=%d and ONE noise scale for all '
+                   'measurements of a case (with noise scales 0.1 and 10 mixed, 1000 iterations leave a relative gap of 3.7e-3 and 10000 are needed; calibration); '
+                   'mirror descent shows long plateaus on some inputs (loss 483 after 1000 iterations, optimum 0.77 reached by 2000), so a case failing at %d iterations is '
+                   're-run once with %d before it is judged ("enough iterations")' % (EXACT_ITERS, EXACT_ITERS, ESCALATED_ITERS),
                    'fit clause with iters < 10 fails on the unchanged tree (known finding, recorded not repaired); for iters >= 10 it is enforced',
                    'metric L2, numpy backend, no structural zeros, warm_start=False']
     quick_budget_s = 80
@@ -128,10 +132,13 @@ class C18(Prop):
 
         dis = []
         dlib = [[('a', 'b'), ('c',)], [('a',), ('b',), ('c',)], [('a', 'b'), ('c', 'd')], [('a', 'b', 'c')], [('a', 'b'), ('c', 'd', 'e')]]
-        for rep in range(1 if quick else 8):
+        for rep in range(2 if quick else 16):
             for cl in dlib:
-                for oracle in ('pairwise', 'convex', 'approx'):
-                    dis.append(mk('disjoint-exact', cl, oracle, EXACT_ITERS))
+                c = mk('disjoint-exact', cl, None, EXACT_ITERS)
+                del c['oracle']
+                c['oracles'] = ['pairwise', 'convex', 'approx']
+                c['sigmas'] = c['sigmas'][:1]          # one noise scale for all measurements (conditioning; see assumptions)
+                dis.append(c)
         return _interleave(gen_slow, dis, gen)
 
     def nontrivial(self, case):
@@ -139,27 +146,84 @@ class C18(Prop):
 
     # ------------------------------------------------------------------ driver
     def run_case(self, case):
-        import numpy as np, traceback
-        from mbi import Domain, LocalInference
+        import numpy as np
+        from mbi import Domain
         attrs = list(case['attrs'])
         shape = list(case['shape'])
         dom = Domain(attrs, shape)
         meas = build_measurements(case)
-        np.random.seed(case['seed'] % (1 << 31))
-        out = []
-        try:
-            engine = LocalInference(dom, marginal_oracle=case['oracle'], iters=case['iters'])
-            model = engine.estimate([(Q, y.copy(), s, cl) for Q, y, s, cl in meas], total=case['total'])
-        except Exception as e:
-            return [('completes', False, dict(exception='%s: %s' % (type(e).__name__, e), traceback=traceback.format_exc(limit=8)))]
-        out.append(('completes', True, {}))
-
-        # total
         T_ind = case['total'] if case['total'] is not None else (ac.estimate_total_independent(meas) or 1.0)
-        T = float(model.total)
-        out.append(('total-is-given-or-inverse-variance-estimate', abs(T - T_ind) <= 1e-6 * max(1.0, abs(T_ind)), dict(model_total=T, independent=T_ind)))
+        uni = {cl: np.full(ac.region_shape(cl, attrs, shape), T_ind / np.prod(ac.region_shape(cl, attrs, shape))) for _, _, _, cl in meas}
+        L0 = ac.l2_loss(uni, meas)
+        ref = None
+        if case['kind'] == 'disjoint-exact':
+            cl_list = ac.tup(case['cliques'])
+            assert all(not (set(a) & set(b)) for i, a in enumerate(cl_list) for b in cl_list[i + 1:]), 'generator: cliques must be disjoint'
+            from mbi import FactoredInference
+            fm = FactoredInference(dom, iters=FACTORED_ITERS).estimate([(Q, y.copy(), s, cl) for Q, y, s, cl in meas], total=case['total'])
+            L_fi = ac.l2_loss({cl: ac.table(fm.project(cl), cl)[1] for _, _, _, cl in meas}, meas)
+            # independent optimum: the problem separates over the disjoint cliques (accelerated projected gradient on the scaled simplex)
+            L_star, gap = 0.0, 0.0
+            for cl in sorted(set(cl_list)):
+                ms = [m for m in meas if m[3] == cl]
+                _, f, g = ac.simplex_least_squares([m[0] for m in ms], [m[1] for m in ms], [m[2] for m in ms], T_ind)
+                L_star, gap = L_star + f, gap + g
+            ref = dict(exact_estimation_loss=L_fi, independent_optimum=L_star, independent_optimum_gap_bound=gap)
+        out = []
+        oracles = case['oracles'] if 'oracles' in case else [case['oracle']]
+        for oracle in oracles:
+            tag = '[%s]' % oracle if len(oracles) > 1 else ''
+            res = self._estimate(case, dom, meas, oracle, case['iters'])
+            if 'exception' in res:
+                out.append(('completes' + tag, False, res))
+                continue
+            out.append(('completes' + tag, True, {}))
+            model = res['model']
+            T = float(model.total)
+            out.append(('total-is-given-or-inverse-variance-estimate' + tag, abs(T - T_ind) <= 1e-6 * max(1.0, abs(T_ind)),
+                        dict(model_total=T, independent=T_ind)))
+            tabs, bad = self._tables(model, meas, attrs, shape, T_ind)
+            out.append(('measured-tables-valid' + tag, not bad, dict(bad=bad[:3])))
+            if bad:
+                continue
+            L = ac.l2_loss(tabs, meas)
+            out.append(('fit-no-worse-than-uniform' + tag, L <= L0 * (1 + 1e-9) + 1e-9, dict(loss=L, uniform_loss=L0, iters=case['iters'], oracle=oracle)))
+            if oracle == 'convex':
+                # overlap within the tolerance the estimator enforces (mean L1 parent/child disagreement < 1)
+                mg = {tuple(r): ac.table(model.marginals[r], r)[1] for r in model.cliques}
+                edges = [(p, r) for p in model.cliques for r in model.children[p]]
+                l1 = [float(np.abs(ac.marg(mg[p], list(p), r) - mg[r]).sum()) for p, r in edges]
+                feas = float(np.mean(l1)) if l1 else 0.0
+                out.append(('convex-overlap-within-enforced-tolerance' + tag, feas < 1.0, dict(mean_l1_disagreement=feas, edges=len(edges), total=T)))
+            if ref is not None:
+                Lopt = min(ref['exact_estimation_loss'], ref['independent_optimum'])
+                tolv = 1e-3 * max(L0 - Lopt, 0.0) + 1e-6
+                det = dict(ref, loss=L, uniform_loss=L0, tolerance=tolv, iters=case['iters'], oracle=oracle)
+                ok = L <= Lopt + tolv
+                if not ok:
+                    # "with enough iterations": mirror descent shows long plateaus on some inputs; escalate once before judging
+                    res2 = self._estimate(case, dom, meas, oracle, ESCALATED_ITERS)
+                    if 'exception' in res2:
+                        out.append(('completes' + tag, False, res2))
+                        continue
+                    tabs2, bad2 = self._tables(res2['model'], meas, attrs, shape, T_ind)
+                    L2 = ac.l2_loss(tabs2, meas) if not bad2 else float('inf')
+                    det.update(loss_after_escalation=L2, escalated_iters=ESCALATED_ITERS)
+                    ok = L2 <= Lopt + tolv
+                out.append(('disjoint-cliques-reach-exact-optimum' + tag, ok, det))
+        return out
 
-        # validity of the answers for every measured clique
+    def _estimate(self, case, dom, meas, oracle, iters):
+        import numpy as np, traceback
+        from mbi import LocalInference
+        np.random.seed(case['seed'] % (1 << 31))
+        try:
+            engine = LocalInference(dom, marginal_oracle=oracle, iters=iters)
+            return dict(model=engine.estimate([(Q, y.copy(), s, cl) for Q, y, s, cl in meas], total=case['total']))
+        except Exception as e:
+            return dict(exception='%s: %s' % (type(e).__name__, e), traceback=traceback.format_exc(limit=8), oracle=oracle, iters=iters)
+
+    def _tables(self, model, meas, attrs, shape, T_ind):
         tabs, bad = {}, []
         for Q, y, s, cl in meas:
             a, v = ac.table(model.project(cl), cl)
@@ -167,38 +231,10 @@ class C18(Prop):
             ok, d = ac.valid_table(v, T_ind, rtol=1e-6)
             if not (ok and v.shape == ac.region_shape(cl, attrs, shape)):
                 bad.append(dict(clique=cl, table=v, **d))
-        out.append(('measured-tables-valid', not bad, dict(bad=bad[:3])))
-        if bad:
-            return out
-
-        # fit vs the uniform start
-        L = ac.l2_loss(tabs, meas)
-        uni = {cl: np.full(ac.region_shape(cl, attrs, shape), T_ind / np.prod(ac.region_shape(cl, attrs, shape))) for _, _, _, cl in meas}
-        L0 = ac.l2_loss(uni, meas)
-        out.append(('fit-no-worse-than-uniform', L <= L0 * (1 + 1e-9) + 1e-9, dict(loss=L, uniform_loss=L0, iters=case['iters'], oracle=case['oracle'])))
-
-        # convex oracle: overlap within the tolerance the estimator enforces
-        if case['oracle'] == 'convex':
-            mg = {tuple(r): ac.table(model.marginals[r], r)[1] for r in model.cliques}
-            edges = [(p, r) for p in model.cliques for r in model.children[p]]
-            l1 = [float(np.abs(ac.marg(mg[p], list(p), r) - mg[r]).sum()) for p, r in edges]
-            feas = float(np.mean(l1)) if l1 else 0.0
-            out.append(('convex-overlap-within-enforced-tolerance', feas < 1.0, dict(mean_l1_disagreement=feas, edges=len(edges), total=T)))
-
-        # disjoint cliques: same optimum as exact estimation
-        if case['kind'] == 'disjoint-exact':
-            cl_list = ac.tup(case['cliques'])
-            assert all(not (set(a) & set(b)) for i, a in enumerate(cl_list) for b in cl_list[i + 1:]), 'generator: cliques must be disjoint'
-            from mbi import FactoredInference
-            ref = FactoredInference(dom, iters=FACTORED_ITERS).estimate([(Q, y.copy(), s, cl) for Q, y, s, cl in meas], total=case['total'])
-            rt = {cl: ac.table(ref.project(cl), cl)[1] for _, _, _, cl in meas}
-            Lopt = ac.l2_loss(rt, meas)
-            tolv = 1e-3 * max(L0 - Lopt, 0.0) + 1e-6
-            out.append(('disjoint-cliques-reach-exact-optimum', L <= Lopt + tolv,
-                        dict(loss=L, exact_estimation_loss=Lopt, uniform_loss=L0, tolerance=tolv, iters=case['iters'], oracle=case['oracle'])))
-        return out
+        return tabs, bad
 
     def finding_key(self, case, clause, detail):
+        clause = clause.split('[')[0]
         if clause == 'fit-no-worse-than-uniform' and case.get('iters', 0) < 10:
             return FEW_ITERS_KEY
         return 'bounded:%s' % clause
